@@ -408,7 +408,7 @@ def make_run_one(sc: Dict[str, Any], form: str = "rel", wide: bool = False):
             ds.vloop = loop
             scheds = {"aio": AsyncIOScheduler(loop), "ts": AsyncIOThreadSafeScheduler(loop)}
             disp: Dict[int, Any] = {}
-            state = {"go": False, "runs": 0, "fin": False}
+            state = {"go": False, "starts": 0, "runs": 0, "fin": False}
 
             def log(e, **kw):
                 t = ds.me()
@@ -426,7 +426,7 @@ def make_run_one(sc: Dict[str, Any], form: str = "rel", wide: bool = False):
                 if o == "go":
                     state["go"] = True
                 elif o == "up":
-                    ds.block(lambda: loop.is_running() or state.get("fin"), what="up")
+                    ds.block(lambda: state["starts"] >= w or state.get("fin"), what="up")     # the loop was started w times
                 elif o == "down":        # the loop has run and is stopped (it will be run again when F says go)
                     ds.block(lambda: state["runs"] >= 1 and not loop.is_running(), what="down")
                 elif o == "sleep":
@@ -484,6 +484,7 @@ def make_run_one(sc: Dict[str, Any], form: str = "rel", wide: bool = False):
                     ds.block(lambda: state["go"], what="go")
                     state["go"] = False
                     log("ls")
+                    state["starts"] += 1
                     loop.run_forever()
                     if loop._quiesced:
                         state["fin"] = True
